@@ -88,7 +88,8 @@ def dict2crystalmap(dictionary: dict) -> CrystalMap:
         "rotations": Rotation.from_euler(
             np.stack((data.pop("phi1"), data.pop("Phi"), data.pop("phi2")), axis=-1),
         ),
-        "scan_unit": header["scan_unit"],
+        # Not in the file if it is None
+        "scan_unit": header.get("scan_unit"),
         "phase_list": dict2phaselist(header["phases"]),
         "phase_id": data.pop("phase_id"),
         "is_in_data": data.pop("is_in_data"),
@@ -335,7 +336,7 @@ def dict2hdf5group(dictionary: dict, group: Group, **kwargs):
                     "The orix HDF5 writer could not write the following information to "
                     f"the file '{key} : {val}'."
                 )
-                break
+                continue  # Skip this item only
         group.create_dataset(key, shape=dshape, dtype=ddtype, **kwargs)
         group[key][()] = val
 
